@@ -189,3 +189,38 @@ pub fn eq_merge(p: &ProgramDef, rng: &mut Rng) -> Input {
    res.sort_by_key(|(i, _)| *i);
    res
 }
+
+/// a transitively closed edge relation: recursive rules over it re-derive only known tuples, so the
+/// last productive iteration of a stratum changes nothing but its secondary (write-only) heads
+pub fn closed(p: &ProgramDef, rng: &mut Rng) -> Input {
+   let e = edge_rel(p);
+   let n = rng.range(3, 6) as usize;
+   let mut m = vec![vec![false; n]; n];
+   for _ in 0..rng.range(2, 6) {
+      let a = rng.below(n as u64) as usize;
+      let b = rng.below(n as u64) as usize;
+      if a != b || rng.chance(200) {
+         m[a][b] = true;
+      }
+   }
+   for k in 0..n {
+      for i in 0..n {
+         for j in 0..n {
+            if m[i][k] && m[k][j] {
+               m[i][j] = true;
+            }
+         }
+      }
+   }
+   let mut rows = vec![];
+   for i in 0..n {
+      for j in 0..n {
+         if m[i][j] {
+            rows.push(edge_row(p, e, i as u64, j as u64, rng));
+         }
+      }
+   }
+   let lat = p.rels[e].lattice;
+   let rows = finish(rng, lat, rows);
+   with_other_inputs(p, rng, e, rows)
+}
